@@ -65,36 +65,64 @@ ASSUMPTIONS = [
 
 
 def model_input(pair, conn_desc, schemas, obj_pred, name_pred):
+    no_uq = bool(pair.get("setup", {}).get("no_uq"))
     return {
         "schemas": schemas,
-        "conn": conn_desc,
+        # a dialect that cannot reflect unique constraints sees none on the database side
+        "conn": [dict(t, uqs=[]) for t in conn_desc] if no_uq else conn_desc,
         "meta": fs.describe_meta(pair["meta"]),
         "colDiffer": fs.col_differ(pair),
-        "supportsUq": True,
+        "tableCommentDiffer": fs.table_comment_differ(pair),
+        "supportsUq": not no_uq,
         "objPred": obj_pred,
         "namePred": name_pred,
     }
 
 
+_ENV = []
+
+
+def script_env():
+    if not _ENV:
+        import atexit
+        _ENV.append(fs.ScriptEnv())
+        atexit.register(_ENV[0].close)
+    return _ENV[0]
+
+
 def run_case(pair, preds):
-    """runs the implementation: unfiltered once, then once per predicate pair"""
+    """runs the implementation: unfiltered once, then once per predicate pair.  pair["setup"] selects the variants:
+    comments (dialect double with supports_comments), split (target_metadata is a list of two MetaData), no_uq (dialect
+    double without unique-constraint reflection), entry (first predicate pair also through compare_metadata and through
+    `alembic revision --autogenerate`/env.py/EnvironmentContext.configure)"""
+    setup = pair.get("setup", {})
     eng, conn = fs.make_db(pair)
     try:
         inc = "s2" in pair["schemas"]
-        md = fs.build_metadata(pair["meta"])
+        md = fs.build_metadata(pair["meta"], split=bool(setup.get("split")))
         schemas = fs.inspected_schemas(conn, inc)
         conn_desc = fs.describe_conn(conn, schemas)
-        unf, nd = fs.run_autogen(conn, md, include_schemas=inc)
-        out = []
-        for obj_pred, name_pred in preds:
+        if pair.get("comments"):
+            conn.dialect.supports_comments = True      # per-engine dialect object; the database itself stores no comments
+        kw = {"include_schemas": inc, "no_uq_reflection": bool(setup.get("no_uq"))}
+        unf, nd = fs.run_autogen(conn, md, **kw)
+        out, entry = [], []
+        for i, (obj_pred, name_pred) in enumerate(preds):
             calls = []
             try:
-                f, _ = fs.run_autogen(conn, md, obj_pred, name_pred, include_schemas=inc, calls=calls)
+                f, _ = fs.run_autogen(conn, md, obj_pred, name_pred, calls=calls, **kw)
                 err = None
+                if i == 0 and setup.get("entry"):
+                    for via in ("compare", "command"):
+                        try:
+                            g, _ = fs.run_autogen(conn, md, obj_pred, name_pred, via=via, env=script_env(), **kw)
+                        except Exception as e:
+                            g = "%s: %s" % (type(e).__name__, e)
+                        entry.append((via, g))
             except Exception as e:  # a crash with a filter is reported as a disagreement
                 f, err = None, "%s: %s" % (type(e).__name__, e)
             out.append((obj_pred, name_pred, f, calls, err))
-        return {"schemas": schemas, "conn_desc": conn_desc, "unfiltered": unf, "runs": out, "n_diffs": nd}
+        return {"schemas": schemas, "conn_desc": conn_desc, "unfiltered": unf, "runs": out, "n_diffs": nd, "entry": entry}
     finally:
         conn.close()
         eng.dispose()
@@ -102,8 +130,17 @@ def run_case(pair, preds):
 
 def check_cases(ctx, items):
     """items: list of (pair, result of run_case)"""
-    ops, index = [], []
+    ops, index, entry_specs = [], [], []
     for pair, res in items:
+        # the three public entry points must report the same changes for the same filters
+        for via, g in res.get("entry", []):
+            f0 = res["runs"][0][2]
+            ctx.hist("entry_point_runs", via)
+            if g != f0:
+                ctx.disagree("entry-points", {"pair": pair, "objPred": res["runs"][0][0], "namePred": res["runs"][0][1]},
+                             {via: g}, {"produce_migrations": f0}, note="same filters, different public entry point")
+                if isinstance(g, list):
+                    entry_specs.append((pair, res, via, g))
         for obj_pred, name_pred, f, calls, err in res["runs"]:
             mi = model_input(pair, res["conn_desc"], res["schemas"], obj_pred, name_pred)
             ops.append({"op": "filter.diff", **mi})
@@ -157,6 +194,21 @@ def check_cases(ctx, items):
                         "filtered_ops": f, "unfiltered_ops": res["unfiltered"]})
 
 
+    # an entry point that reports other changes than produce_migrations is judged by the specification on its own
+    if entry_specs:
+        q = [{"op": "filter.spec", **model_input(pair, res["conn_desc"], res["schemas"], res["runs"][0][0], res["runs"][0][1]),
+              "filtered": [o for o in g if not o["kind"].startswith("other:")], "unfilteredOps": res["unfiltered"]}
+             for pair, res, via, g in entry_specs]
+        for (pair, res, via, g), s in zip(entry_specs, ctx.drv.ask(q)):
+            inp = {"pair": pair, "objPred": res["runs"][0][0], "namePred": res["runs"][0][1], "entry": via}
+            for key, kind in (("object", "object-leak"), ("name", "name-leak"), ("conservative", "not-conservative")):
+                if s.get(key) is False:
+                    ctx.fail(inp, "%s: through %s (%s) the property fails: %s" % (
+                        kind, via, "alembic revision --autogenerate / env.py" if via == "command" else "compare_metadata()",
+                        json.dumps(s.get("badObject") or s.get("badName") or s.get("accFiltered"))[:400]),
+                        impl={"ops": g}, tags=[key, "entry"])
+
+
 def gen_preds(rng, pair, n):
     preds = []
     for i in range(n):
@@ -176,7 +228,12 @@ def run(ctx, n_pairs=None, rng_name="main"):
         with_schema = rng.random() < 0.25
         doubled = rng.random() < 0.35
         ctx.hist("doubled_names_generated", doubled)
-        pair = fs.gen_pair(rng, big=ctx.thorough, with_schema=with_schema, doubled=doubled)
+        comments = rng.random() < 0.15
+        pair = fs.gen_pair(rng, big=ctx.thorough, with_schema=with_schema, doubled=doubled, comments=comments)
+        pair["setup"] = {"split": rng.random() < 0.2, "no_uq": rng.random() < 0.1, "entry": i % 2 == 0}
+        for k_, v_ in pair["setup"].items():
+            ctx.hist("setup_" + k_, v_)
+        ctx.hist("setup_comments", comments)
         preds = gen_preds(rng, pair, per)
         for fo, fn, _, _ in preds:
             ctx.hist("object_pred_family", fo)
@@ -209,8 +266,9 @@ def replay(ctx, case):
     inp = case["input"]
     res = run_case(inp["pair"], [(inp["objPred"], inp["namePred"])])
     obj_pred, name_pred, f, calls, err = res["runs"][0]
+    entry = {via: g for via, g in res.get("entry", [])}
     mi = model_input(inp["pair"], res["conn_desc"], res["schemas"], obj_pred, name_pred)
     m = ctx.drv.ask1({"op": "filter.diff", **mi})
     s = ctx.drv.ask1({"op": "filter.spec", **mi, "filtered": f or [], "unfilteredOps": res["unfiltered"]})
-    return {"impl_ops": f, "impl_unfiltered": res["unfiltered"], "impl_error": err, "filter_calls": calls,
+    return {"impl_ops": f, "impl_unfiltered": res["unfiltered"], "impl_error": err, "filter_calls": calls, "entry_points": entry,
             "model_ops": sorted(m.get("ops", []), key=fs.op_sort_key), "spec": s}
